@@ -20,10 +20,14 @@ func ResolveValue(v any, fieldName string) (any, bool) {
 	return resolveValueRecursive(rv, fieldName)
 }
 
+// MaxPointerDepth bounds how many pointers in a row are followed: a self-referential
+// pointer type (type P *P; p = &p) would otherwise be followed without end.
+const MaxPointerDepth = 64
+
 func resolveValueRecursive(rv reflect.Value, fieldName string) (any, bool) {
 	// Dereference pointers
-	for rv.Kind() == reflect.Ptr {
-		if rv.IsNil() {
+	for depth := 0; rv.Kind() == reflect.Ptr; depth++ {
+		if rv.IsNil() || depth >= MaxPointerDepth {
 			return nil, false
 		}
 		rv = rv.Elem()
@@ -109,8 +113,8 @@ func CanDescend(v any) bool {
 	}
 
 	rv := reflect.ValueOf(v)
-	for rv.Kind() == reflect.Ptr {
-		if rv.IsNil() {
+	for depth := 0; rv.Kind() == reflect.Ptr; depth++ {
+		if rv.IsNil() || depth >= MaxPointerDepth {
 			return false
 		}
 		rv = rv.Elem()
@@ -213,8 +217,8 @@ func PopulateStructFields(m map[string]any, data any) {
 
 	rv := reflect.ValueOf(data)
 	// Dereference pointers
-	for rv.Kind() == reflect.Ptr {
-		if rv.IsNil() {
+	for depth := 0; rv.Kind() == reflect.Ptr; depth++ {
+		if rv.IsNil() || depth >= MaxPointerDepth {
 			return
 		}
 		rv = rv.Elem()
